@@ -224,7 +224,9 @@ CHECKS["C04"] = {
             "(Proofs/C04table.v): the aligned atom_site table of any structure is a token sequence (every cell after a separator of blanks or the "
             "line end of the row before), and the loop the writer prints - its literal header, regenerated from the source, followed by the padded "
             "rows - is read by the lexer as exactly the column names of the literal and, row by row, the values of the cells, provided every cell "
-            "is a legal unquoted spelling (the property's precondition on identifiers; proved for integers and record names whatever the structure).",
+            "is a legal unquoted spelling; and every cell is one for every structure whose identifiers are (the property's precondition): the numbers "
+            "print_float and the integer formatter print, the element symbols, the generated label ids and the record names are proved legal for "
+            "every value (Proofs/C04cells.v, with a decidable criterion for a legal spelling).",
     "design_ref": "DESIGN.md section 6 C04",
     "note": "read_cif (save_mmcif s) = round5 s is proved up to the lexed atom_site loop, not through the row parser and not for the single items; both models are tied to the code by correspondence and the "
             "specification is evaluated per structure. Trusted: Coq kernel, T5, extraction, harness generator.",
